@@ -912,6 +912,8 @@ FP_OPS = {"fadd", "fsub", "fmul", "fdiv", "call:llvm.sqrt", "call:llvm.fma", "ca
 def has_fp(t):
     """does the closed form contain rounding-mode sensitive float arithmetic"""
     seen = set()
+    if contains_op(t, ("spec:c_fdim", "spec:c_frac", "spec:c_ldexp")):
+        return True
     stack = [t]
     while stack:
         x = stack.pop()
@@ -1873,6 +1875,31 @@ def _ev(t, env, memo):
         if sg and not (e_ == emax and m_) and not (e_ == 0 and m_ == 0) and not (e_ == emax and m_ == 0):
             cats |= 0x40        # negative finite (incl. negative denormals)
         return int(bool(cats & imm))
+    if o.startswith("spec:c_"):
+        import fpeval
+        rm = env.get("rm", "RN")
+        n = o[7:]
+        a = ev(t[2], env, memo)
+        sw = t[2][1]
+        if n == "fmax":
+            return fpeval.c_fmax(a, ev(t[3], env, memo), w, True)
+        if n == "fmin":
+            return fpeval.c_fmax(a, ev(t[3], env, memo), w, False)
+        if n == "fdim":
+            return fpeval.c_fdim(a, ev(t[3], env, memo), w, rm)
+        if n == "frac":
+            return fpeval.c_frac(a, w, rm)
+        if n == "ilogb":
+            return fpeval.c_ilogb(a, sw, w)
+        if n == "logb":
+            return fpeval.c_logb(a, w)
+        if n == "frexp_m":
+            return fpeval.c_frexp_m(a, w)
+        if n == "frexp_e":
+            return fpeval.c_frexp_e(a, sw, w)
+        if n == "ldexp":
+            return fpeval.c_ldexp(a, ev(t[3], env, memo), w, t[3][1], rm)
+        raise Uneval(o)
     if o == "spec:bit_floor":
         x = ev(t[2], env, memo)
         return (1 << (x.bit_length() - 1)) if x else 0
